@@ -530,5 +530,5 @@ META = {
     "dispatcher flushes every write unconditionally and every raw echo is followed by a flush (two layers share "
     "the capture pipe while an alias runs).",
     "note": "Decides the listed structural clauses, not the behaviour; marginal reach by design (DESIGN section 4).",
-    "more": 'Also decided: the reader ends of the inter-stage pipes are closed only where the last stage is known to be over (an alias stage reads through the descriptor in this process). The raw-waitpid helper stores the status it reaped on every reaping path. The chunk queue between the reader thread and the consumer is unbounded (the synchronous branch waits for the stage before it reads).',
+    "more": 'Also decided: the reader ends of the inter-stage pipes are closed only where the last stage is known to be over (an alias stage reads through the descriptor in this process). The raw-waitpid helper stores the status it reaped on every reaping path. The chunk queue between the reader thread and the consumer is unbounded (the synchronous branch waits for the stage before it reads). The stripping / hiding patterns contain no unbounded greedy repeat over \'any character\' (regex syntax tree); the reaper records the right part of the wait status.',
 }
